@@ -137,8 +137,16 @@ def run(tier):
         Cond("h_eval_order.py", "accepted", 600 if tier == "quick" else 2400, twin="reach", env={"H_LEN": L, "H_IO": "1"}),
         # the constraints a search is started with are exactly the spec's plus this call's extras (API history)
         Cond("h_api.py", "calls_are_independent", 600 if tier == "quick" else 2400, twin="reach", env={"H_CALLS": "2" if tier == "quick" else "3"}),
-    ], conformance_harnesses=["h_eval_order.py", "h_api.py"])
-    run.encoded += ["E1: Fandango.init_population (api.py) under a symbolic history of calls with/without extra constraints",
+    ] + [
+        # the generation loop's repair + re-evaluation statements (extracted from the current source): every individual evaluated there
+        # for the first time is reported
+        Cond("h_genloop.py", "first_evaluation_reports", 900 if tier == "quick" else 2400, twin="reach" if seen == 0 else None, env={"H_SEEN": str(seen)})
+        for seen in range(4)
+    ], conformance_harnesses=["h_eval_order.py", "h_api.py", "h_genloop.py"])
+    run.encoded += ["E1: the repair + re-evaluation statements of Fandango._generate_simple (extracted by markers from the current source): Evaluator.evaluate_individual, "
+                    "PopulationManager.fix_individual, Evaluator.evaluate_population, on every 2-individual population over the 16 trees of a 2-digit grammar and every "
+                    "'already evaluated' pattern",
+                    "E1: Fandango.init_population (api.py) under a symbolic history of calls with/without extra constraints",
                     "E1: Evaluator.__init__ + evaluate_individual / IoEvaluator.evaluate_individual executed by CrossHair over all hard/repetition-bound declaration orders of length <= " + L]
     run.extra["smt_queries_nontrivial"] = run.extra.get("smt_queries", 0)
     run.extra["source_sha256_16"] = source_fingerprint(["fandango/evolution/evaluation.py", "fandango/constraints/fitness.py"])
